@@ -555,20 +555,26 @@ func lineNo(cmd string) int {
 // ------------------------------------------------------------------ C16
 
 func oracleC16(c *Case) Verdict {
+	v, _, _ := oracleC16pair(c)
+	return v
+}
+
+// oracleC16pair also returns the two runs that differ (nil if none).
+func oracleC16pair(c *Case) (Verdict, *tool.Result, *tool.Result) {
 	runs := 8
 	if n, err := strconv.Atoi(c.Param("runs")); err == nil && n > 1 {
 		runs = n
 	}
 	first := tool.CompareStd(c.Files)
 	if first.Crashed() {
-		return discard("crash")
+		return discard("crash"), nil, nil
 	}
 	for i := 1; i < runs; i++ {
 		r := tool.CompareStd(c.Files)
 		if r.Stdout != first.Stdout || r.Stderr != first.Stderr || r.Exit != first.Exit {
 			return fail(c.Family+":nondeterministic",
 				"run 1 and run %d on byte-identical inputs differ\n--- run 1 (exit %d)\n%s%s\n--- run %d (exit %d)\n%s%s\n--- device\n%s--- target\n%s",
-				i+1, first.Exit, first.Stdout, first.Stderr, i+1, r.Exit, r.Stdout, r.Stderr, c.Files["device"], c.Files["code/router"])
+				i+1, first.Exit, first.Stdout, first.Stderr, i+1, r.Exit, r.Stdout, r.Stderr, c.Files["device"], c.Files["code/router"]), &first, &r
 		}
 	}
 	nt := c.Param("ties") != "" && c.Param("ties") != "0"
@@ -576,7 +582,7 @@ func oracleC16(c *Case) Verdict {
 	if first.Stdout != "" {
 		cl = append(cl, c.Family+":nonempty-script")
 	}
-	return pass(nt, cl...)
+	return pass(nt, cl...), nil, nil
 }
 
 func init() {
